@@ -16,6 +16,17 @@ CHECKS = {
         "are sampled.",
    note="Progress bound is generous and stated in the evidence; deadlock beyond sampled states is not excluded.",
    tech="deterministic simulation, online handshake-stability invariant, bounded liveness after schedule faults stop"),
+ "C05": dict(cat="exploration", ref="DESIGN.md 5.C05",
+   text="Real AsyncFIFO / ClockDomainCrossing (all variants, common reset with reset pulses) / BusSynchronizer between two "
+        "clock domains whose rising edges follow a seeded literal tick schedule (ratio classes 1:8..8:1, jitter, drift, "
+        "bursts, adversarial orders, coincident edges), with every MultiReg lowered through a wrapper whose first flop "
+        "resolves per bit old/new when its input changes next to the sampling edge; oracles: exactly-once in-order "
+        "delivery (per reset epoch under reset pulses), BusSynchronizer output only ever a word its input held, in order, "
+        "and settled after the input is stable. Sampling of schedules and resolutions, not proof.",
+   note="Metastability model: per-bit old/new, clean one cycle later; 'source just after destination' covered through the "
+        "opposite order; AXILiteClockDomainCrossing/UART/Monitor crossings use the same AsyncFIFO/MultiReg primitives and "
+        "are not run separately yet.",
+   tech="deterministic simulation, seeded clock-edge interleaving + per-bit synchroniser-resolution fault injection + reset pulses"),
  "C16": dict(cat="exploration", ref="DESIGN.md 5.C16",
    text="Seeded search over header definitions, data widths, packet lists, valid/ready schedules and selector changes for "
         "Packetizer, Depacketizer, their round trip, PacketFIFO, Arbiter and Dispatcher on the real simulator; outputs "
